@@ -151,6 +151,10 @@ func (g *G) inlines(c ictx, max int) []Inline {
 			case brk == 1:
 				out = append(out, Soft{})
 			case brk == 2:
+				if _, ok := prev.(Text); ok && coin(g.s, 1, 4) {
+					// "word\" + two spaces + newline: a literal backslash, then a hard break
+					out = append(out, BS{})
+				}
 				out = append(out, Hard{})
 			case needSpace || coin(g.s, 1, 3):
 				// explicit space: attach to a Text so serialisation is simple
